@@ -69,7 +69,7 @@ def check_docs(ctx, xmls, max_sub):
     terms = ["run18 %s" % cnode(t) for _, _, _, t, _ in items]
     terms += ["run18doc %s %s %s" % (common.clist(cnode(n) for n in p), cnode(t), common.clist(cnode(n) for n in e))
               for _, _, p, t, e, _ in docitems]
-    vals = ctx.coq_eval("c18", preamble(), terms, chunk=60)
+    vals = ctx.coq_eval("c18", preamble(), terms, chunk=20)
     for (kind, xml, idx, t, real), v in zip(items, vals):
         case = {"xml": xml, "subtree": idx, "tree": t}
         if v is None:
@@ -155,7 +155,7 @@ def run(ctx, args):
             check_docs(ctx, [("replay", case["xml"])], max_sub=50)
         return ctx.finish("replay of " + args.replay)
     quick = ctx.tier == "quick"
-    xmls = [("fixed", x) for x in FIXED] + gen_cases(ctx, 150 if quick else 2500, 60 if quick else 800)
+    xmls = [("fixed", x) for x in FIXED] + gen_cases(ctx, 110 if quick else 2500, 45 if quick else 800)
     check_docs(ctx, xmls, max_sub=3 if quick else 8)
     return ctx.finish(
         rule="documents: fixed small cases + random conventionally laid out (data-style) documents of depth <= 3 with "
